@@ -57,7 +57,7 @@ if __name__ == '__main__':
     if len(sys.argv) > 1:
         ms = [m for m in ms if any(a in m['id'] for a in sys.argv[1:])]
     from concurrent.futures import ThreadPoolExecutor
-    with ThreadPoolExecutor(max_workers=4) as ex:
+    with ThreadPoolExecutor(max_workers=int(os.environ.get('VERIF_NEUTRAL_JOBS', '4'))) as ex:
         out = list(ex.map(run_one, ms))
     for r in out:
         print(json.dumps(r))
